@@ -384,3 +384,57 @@ def gen_and_eval_sharded(pid, gocmd, header, footer, goargs=None, timeout=1500, 
     with ThreadPoolExecutor(workers) as ex:
         res = list(ex.map(one, shards))
     return res, (0, so, se)
+
+
+def gen_lockprog(pid):
+    """Run translator T1 (go2cfg) on the current /repo -> work/<pid>/gen/LockProg.v, compile it."""
+    binp = go_build("go2cfg")
+    gd = os.path.join(WORK, pid, "gen")
+    os.makedirs(gd, exist_ok=True)
+    out = os.path.join(gd, "LockProg.v")
+    rc, so, se, dt = run([binp, out, REPO], cwd=HARNESS, env=GOENV, timeout=600)
+    if rc != 0:
+        raise Broken("go2cfg translator failed: %s %s" % (so[-1000:], se[-2000:]))
+    rc, so, se, dt = coqc_file(out, timeout=600, extra=["-Q", gd, "MVgen"])
+    if rc != 0:
+        raise Broken("generated LockProg.v does not compile: %s %s" % (so[-1000:], se[-2000:]))
+    return gd, out
+
+
+def lockprog_functions(path):
+    """Parse the generated LockProg.v back (for reports only): name -> (pos, locks, [ (body, succs, returns) ])."""
+    fns = {}
+    cur = None
+    for line in open(path):
+        m = re.match(r"\s*\(\* (\S+)  (\S+)  locks: (.*) \*\)", line)
+        if m:
+            cur = {"pos": m.group(2), "locks": m.group(3), "blocks": []}
+            fns[m.group(1)] = cur
+            continue
+        m = re.match(r"\s*\{\| body := \[(.*?)\]; succs := \[(.*?)\]; returns := (\w+) \|\}", line)
+        if m and cur is not None:
+            succs = [int(x) for x in re.findall(r"(\d+)%nat", m.group(2))]
+            cur["blocks"].append((m.group(1), succs, m.group(3) == "true"))
+    return fns
+
+
+def shortest_path(blocks, target):
+    """BFS from block 0 to `target`; returns the list of block indices."""
+    prev = {0: None}
+    q = [0]
+    while q:
+        b = q.pop(0)
+        if b == target:
+            break
+        for s in blocks[b][1]:
+            if s not in prev:
+                prev[s] = b
+                q.append(s)
+    if target not in prev:
+        return []
+    p = []
+    b = target
+    while b is not None:
+        p.append(b)
+        b = prev[b]
+    return p[::-1]
